@@ -167,20 +167,60 @@ func genRpmHeaderBlob(r *hx.Rand) []byte {
 	if r.Chance(2, 3) {
 		nd := 1 + r.Intn(3)
 		dirs := []string{"/usr/bin/", "/usr/lib/x/", "/etc/", "/usr/share/java/"}[:nd+1]
+		if r.Chance(1, 3) {
+			// directories that path.Clean has work with, that make the patterns
+			// match across the join, and relative / empty ones
+			for k := range dirs {
+				dirs[k] = r.Pick("/usr/sbin", "/usr/libexec/x/", "/usr/lib/python3/site-packages/a.egg-info", "/opt/../usr/bin/", "//usr//bin//", "/usr/./bin/.",
+					"", ".", "..", "../..", "a/../../b", "/..", "/usr/libexec", "usr/bin", "/x\ny/", "/usr/lib/node_modules/p/package", "/é/", "/\xff/")
+			}
+		}
 		nb := 1 + r.Intn(4)
 		var bases []string
 		var di []int32
 		for i := 0; i < nb; i++ {
-			bases = append(bases, r.Pick("a", "tool", "x.jar", "package.json", "lib.so"))
+			if r.Chance(1, 3) {
+				bases = append(bases, r.Pick("", ".", "..", "PKG-INFO", "x.gemspec", ".jar", ".gemspec", "a.jar/", "../x.jar", "packageXjson", "package\njson", "package\u00e9json",
+					"package\xc3json", "package\xe2\x82json", "package\U0001F600json", "package/json", "json", "b/c", "x\n.jar", "sbin", "a.egg-info/PKG-INFO", "q\xff.jar"))
+			} else {
+				bases = append(bases, r.Pick("a", "tool", "x.jar", "package.json", "lib.so"))
+			}
 			di = append(di, int32(r.Intn(len(dirs))))
 		}
-		ents = append(ents,
-			rpmEntry{tagDirindexes, typInt32, uint32(nb), be32s(di...)},
-			rpmEntry{tagBasenames, typStringArray, uint32(nb), cstr(bases...)},
-			rpmEntry{tagDirnames, typStringArray, uint32(len(dirs)), cstr(dirs...)})
+		switch r.Intn(8) {
+		case 0: // fewer directory indexes than base names
+			di = di[:len(di)-1]
+			if len(di) == 0 {
+				di = []int32{0}
+				bases = append(bases, "x.jar")
+			}
+		case 1:
+			di[r.Intn(len(di))] = int32(len(dirs))
+		case 2:
+			di[r.Intn(len(di))] = []int32{-1, -1 << 31, 1<<31 - 1}[r.Intn(3)]
+		}
+		arr := []rpmEntry{
+			{tagDirindexes, typInt32, uint32(len(di)), be32s(di...)},
+			{tagBasenames, typStringArray, uint32(len(bases)), cstr(bases...)},
+			{tagDirnames, typStringArray, uint32(len(dirs)), cstr(dirs...)}}
+		if r.Chance(1, 6) {
+			// one of the three arrays twice (the last one wins), or missing
+			k := r.Intn(3)
+			if r.Chance(1, 2) {
+				arr = append(arr, arr[k])
+				arr[k].count = 1
+			} else {
+				arr = append(arr[:k], arr[k+1:]...)
+			}
+		}
+		ents = append(ents, arr...)
 	}
 	if r.Chance(1, 6) {
-		ents = append(ents, rpmEntry{tagFilenames, typStringArray, 2, cstr("/usr/bin/q", "/opt/z.jar")})
+		names := []string{"/usr/bin/q", "/opt/z.jar"}
+		if r.Chance(1, 2) {
+			names = []string{r.Pick("/usr/bin/q", "x", "/", "/a/package.json", "/a/package\u00e9json", "/a\n/x.jar"), r.Pick("", "/opt/z.jar", "/etc/passwd", "relative/name", "/usr/libexec/a/b")}
+		}
+		ents = append(ents, rpmEntry{tagFilenames, typStringArray, uint32(len(names)), cstr(names...)})
 	}
 	if r.Chance(1, 2) {
 		ents = append(ents,
